@@ -142,8 +142,14 @@ def strip(x):
     return x
 
 
+_loaded = set()
+
+
 def run_worker(c):
     mod = importlib.import_module("harness.impl." + c["module"])
+    if c["module"] not in _loaded and hasattr(mod, "load"):
+        mod.load()
+    _loaded.add(c["module"])
     return {"ok": {"json": strip(mod.run_case(c["case"]))}}
 
 
@@ -172,7 +178,10 @@ def main():
         if i % 50 == 49:
             json.dump(dict(results=res), open(sys.argv[2] + ".partial", "w"))
     mon.beat(120.0, dict(call=-1, k="write"))
-    json.dump(dict(results=res, numba_disabled=os.environ.get("NUMBA_DISABLE_JIT", "")), open(sys.argv[2], "w"))
+    import numba
+    from distance3d import utils as U
+    compiled = isinstance(U.norm_vector, numba.core.registry.CPUDispatcher)
+    json.dump(dict(results=res, numba_disabled=os.environ.get("NUMBA_DISABLE_JIT", ""), compiled=bool(compiled)), open(sys.argv[2], "w"))
 
 
 if __name__ == "__main__":
